@@ -22,6 +22,11 @@ def run(ctx):
         _ir.nonvacuity(ctx, meta)
         failed = _ir.check_programs(ctx, meta, IMPORTS, 'c01_check', '(fun p => snd (fa_absint 0 false p fa_init))',
                                     'the objective may be evaluated at an infeasible point', 'C01_evaluations_feasible')
+        # histories of tasks on one space: the relational refinement (fitness-order facts), Props/C01.v C01_task_histories
+        failed += [o for o in _ir.check_programs(
+            ctx, meta, IMPORTS + ['Analysis.FeasibleRel'], 'c01r_check', '(fun p => snd (c01r_result p))',
+            'in a history of tasks on one space the objective may be evaluated at an infeasible point, or a best position reported '
+            'that is neither feasible nor the untouched placeholder', 'C01_task_histories') if o not in failed]
     ctx.cov['rule'] = ('theorem for all boxes/objectives/oracles/iteration counts per regenerated program; run monitor: '
                        'configurations of the S-run matrix whose objective arguments and reported best positions were checked; '
                        'non-trivial = configurations with extreme draw scripts, narrow/huge/degenerate boxes or a moving hook')
@@ -30,6 +35,9 @@ def run(ctx):
         _ir.trace_inclusion(ctx, meta)
     _ir.monitor(ctx)
     _ir.translation_failures(ctx, errors)
+    ctx.sample({'theorem': 'C01_task_histories: forall ps, Forall (fun p => c01r_check p = true) ps -> forall box f n_iter INIT x0 evs x\', restart_ok x0 -> '
+                           'tasks ps x0 evs x\' -> Forall feasible (eval_args evs) /\\ best_ok at every hook/dump/end of task /\\ restart_ok x\' '
+                           '(a fresh space is restart_ok: C01_fresh_space_starts_a_history)'})
     ctx.sample({'theorem': 'C01_evaluations_feasible: forall p, c01_check p = true -> forall lbs ubs f n_iter INIT, box_ok -> forall o x0 x\' evs o\', '
                            'init_ok x0 -> run p o x0 = Some (x\', evs, o\') -> Forall feasible (eval_args evs) /\\ best feasible-or-placeholder at every hook/dump/return'})
 
